@@ -164,6 +164,7 @@ class BaseDistanceBasedBins(BaseDistanceBased):
         if value < 1:
             raise ValueError("value must be greater than 0.")
         self._num_bins = value
+        self.statistical_kwargs["num_bins"] = value
 
     def _distance_measure(
         self,
@@ -248,6 +249,7 @@ class BaseDistanceBasedProbability(BaseDistanceBased):
         if value < 1:
             raise ValueError("value must be greater than 0.")
         self._num_bins = value
+        self.statistical_kwargs["num_bins"] = value
 
     @abc.abstractmethod
     def _distance_measure(
